@@ -6,9 +6,14 @@ SHADOW_DEFS = {
     "Impl": "pub struct Impl;", "core": "pub mod core {}", "entrait": "pub mod entrait {}", "Future": "pub trait Future {}",
     "Send": "pub trait Send {}", "Sync": "pub trait Sync {}", "AsRef": "pub trait AsRef {}", "Borrow": "pub trait Borrow {}",
     "Sized": "pub trait Sized {}", "Box": "pub struct Box;", "Option": "pub enum Option {}", "Result": "pub enum Result {}",
+    "m:as_ref": "pub trait AsRefM { fn as_ref(&self) -> i32 { 7 } } impl<X: ?::core::marker::Sized> AsRefM for X {}",
+    "m:borrow": "pub trait BorrowM { fn borrow(&self) -> i32 { 7 } } impl<X: ?::core::marker::Sized> BorrowM for X {}",
+    "m:into_inner": "pub trait IntoInnerM: ::core::marker::Sized { fn into_inner(self) -> i32 { 7 } } impl<X> IntoInnerM for X {}",
+    "no-prelude": "",
     "std": "pub mod std {}", "own-value": "#[allow(non_snake_case)] pub fn {NAME}() {}", "EntraitT-value": "#[allow(non_upper_case_globals)] pub const EntraitT: u8 = 0;",
 }
-PROGS = ["fn", "fn-async-bounds", "fn-byvalue", "mod", "concrete", "trait-self", "trait-self-async", "trait-ref", "trait-borrow", "di-static", "di-dyn-at", "di-dyn", "di-dyn-borrow", "fn-chain"]
+PROGS = ["fn", "fn-async-bounds", "fn-byvalue", "mod", "concrete", "trait-self", "trait-self-async", "trait-ref", "trait-borrow", "di-static", "di-dyn-at", "di-dyn", "di-dyn-borrow", "fn-chain",
+         "trait-self-named-as_ref", "concrete-named-as_ref", "trait-self-byvalue"]
 
 
 def render(prog, name, case, nostd=False):
@@ -33,16 +38,19 @@ def render(prog, name, case, nostd=False):
         run = (f"let app = ::entrait::Impl::new(()); let r = ::std::format!(\"{{}}/{{}}\", <::entrait::Impl<()> as {N}>::f(&app, 1), "
                f"::vt::block_on(<::entrait::Impl<()> as {N}>::g(&app, 1)));")
         probes = [("impl", "::entrait::Impl<()>", N)]
-    elif prog == "concrete":
-        items = f"pub struct Conc(pub i32);\n#[::entrait::entrait(pub {N})]\nfn f(deps: &Conc, a: i32) -> i32 {{ deps.0 + a }}\n"
-        run = (f"let app = ::entrait::Impl::new(Conc(10)); let r = ::std::format!(\"{{}}/{{}}\", <::entrait::Impl<Conc> as {N}>::f(&app, 1), "
-               f"<Conc as {N}>::f(&Conc(20), 1));")
+    elif prog in ("concrete", "concrete-named-as_ref"):
+        f = "as_ref" if prog.endswith("as_ref") else "f"
+        items = f"pub struct Conc(pub i32);\n#[::entrait::entrait(pub {N})]\nfn {f}(deps: &Conc, a: i32) -> i32 {{ deps.0 + a }}\n"
+        run = (f"let app = ::entrait::Impl::new(Conc(10)); let r = ::std::format!(\"{{}}/{{}}\", <::entrait::Impl<Conc> as {N}>::{f}(&app, 1), "
+               f"<Conc as {N}>::{f}(&Conc(20), 1));")
         probes = [("implC", "::entrait::Impl<Conc>", N), ("implOther", "::entrait::Impl<()>", N)]
-    elif prog in ("trait-self", "trait-self-async"):
+    elif prog in ("trait-self", "trait-self-async", "trait-self-named-as_ref", "trait-self-byvalue"):
         a = "async " if prog.endswith("async") else ""
-        items = (f"#[::entrait::entrait]\npub trait {N} {{ {a}fn m(&self, target: i32, this: i32) -> i32; }}\npub struct App;\n"
-                 f"impl {N} for App {{ {a}fn m(&self, target: i32, this: i32) -> i32 {{ target + 3 + this * 0 }} }}\n")
-        call = f"<::entrait::Impl<App> as {N}>::m(&app, 1, 50)"
+        m = "as_ref" if prog.endswith("as_ref") else "m"
+        rcv, arg = ("self", "app") if prog.endswith("byvalue") else ("&self", "&app")
+        items = (f"#[::entrait::entrait]\npub trait {N} {{ {a}fn {m}({rcv}, target: i32, this: i32) -> i32; }}\npub struct App;\n"
+                 f"impl {N} for App {{ {a}fn {m}({rcv}, target: i32, this: i32) -> i32 {{ target + 3 + this * 0 }} }}\n")
+        call = f"<::entrait::Impl<App> as {N}>::{m}({arg}, 1, 50)"
         if a:
             call = f"::vt::block_on({call})"
         run = f"let app = ::entrait::Impl::new(App); let r = ::std::format!(\"{{}}\", {call});"
@@ -99,6 +107,8 @@ def render(prog, name, case, nostd=False):
 def source(prog, name, shadows, case, with_run=True):
     items, run, probes = render(prog, name, case, nostd=not with_run)
     defs = "\n".join(SHADOW_DEFS[s].replace("{NAME}", name) for s in shadows)
+    if "no-prelude" in shadows:
+        defs = "#![no_implicit_prelude]\n" + defs
     if not with_run:
         return f"{defs}\n{items}\n"
     pr = "\n    ".join(f'::vt::emit("avail", &::std::format!("\\"probe\\":\\"{lbl}\\",\\"has\\":{{}}", ::vt::has_impl!({ty}: {tr})));' for lbl, ty, tr in probes)
